@@ -759,12 +759,7 @@ pub fn build_hand(name: &str, rng: &mut Rng) -> Built {
         }
         "vectorsink" => {
             alphabets = vec![(256, vec![])];
-            // the sizes are cycled, not drawn: every run has cases with a sink of 3 and of 100 samples, where the tags
-            // stored on the first samples outnumber the samples while there is still room (C10-m17)
-            static VS_CASE: std::sync::atomic::AtomicUsize = std::sync::atomic::AtomicUsize::new(0);
-            let _ = rng.below(8);
-            let k = VS_CASE.fetch_add(1, std::sync::atomic::Ordering::SeqCst);
-            let max = [3usize, 100, 0, 3, 1, 100, 700, 3, 4096, 100, 5000, 1_000_000][k % 12];
+            let max = *rng.pick(&[0usize, 1, 3, 100, 700, 4096, 5000, 1_000_000]);
             // on the large streams the sink has room for everything: long windows are stored whole
             let max = if BIG_CASE.load(std::sync::atomic::Ordering::SeqCst) { 1_000_000 } else { max };
             params = vec![max as u64];
